@@ -16,9 +16,11 @@ VERIF = mir.VERIF
 # property -> list of rule modules (each has run(ctx)); shared modules implement dependencies between properties
 PROPERTIES = {
     'C06': ['c06'],
+    'C08': ['c08'],
     'C09': ['c09'],
     'C11': ['c11'],
     'C15': ['c15'],
+    'C17': ['c17'],
     'C20': ['c20'],
 }
 
